@@ -523,7 +523,11 @@ pub fn engine_suite(ctx: &Ctx) -> ShardOut {
         let cfg = random_cfg(kind, &mut rng, ctx.thorough);
         let kt = keytype_for(prop, &mut rng);
         let uni = universe_for(&cfg, &mut rng);
-        let n = (rng.range(ctx.hist_len as u64 / 4, ctx.hist_len as u64) as usize).max(4);
+        let mut n = (rng.range(ctx.hist_len as u64 / 4, ctx.hist_len as u64) as usize).max(4);
+        if cfg.total() > 10 && !cfg!(miri) {
+            // medium-sized configurations need longer histories to fill up and churn
+            n *= 6;
+        }
         let ops = random_history(&cfg, &uni, n, &mut rng, opmix);
         let mut opts = RunOpts::new(props, uni.clone());
         opts.lookup_audit = props.c03 && rng.chance(1, 2);
